@@ -268,7 +268,12 @@ def run(tier, seed, replay=None):
         if k < 2 * len(FIXED):                     # every run covers the timeframe pairs whose gcd differs from the trading timeframe
             tf = FIXED[k % len(FIXED)][0]; data = [('BTC-USDT', t_) for t_ in FIXED[k % len(FIXED)][1]]; sc['view_dependent'] = True
         sc['offs'] = rng.choice([[0], [-2, -1, 1, 2], [1, 2], [-1, -2]])           # resting entries close to the price: gaps inside a chunk matter
-        cs = E.gen_candles(rng, rng.choice([240, 360]), style=rng.choice(['flat', 'flat', 'walk', 'trend']))
+        # session lengths that are and are not multiples of the chunk: the last chunk may be shorter than the others
+        cs = E.gen_candles(rng, rng.choice([240, 360, 247, 361, 242]), style=rng.choice(['flat', 'flat', 'walk', 'trend']))
+        if k % 5 == 3:
+            # a strategy that acts at market on every bar it is run on: an extra or a missing run of the strategy shows as an executed order
+            sc.update({'entry_every': 1, 'offs': [0], 'cancel_entry': 'always', 'exit_style': 'none', 'liquidate_every': 2})
+            cs = E.gen_candles(rng, rng.choice([121, 183, 244]), style='flat')
         typ = rng.choice(['futures', 'futures', 'spot'])
         if typ == 'spot': sc['side'] = 'long'
         kw = dict(exchange_type=typ, leverage=rng.choice([1, 2]), fee=rng.choice([0.0, 0.001]))
